@@ -27,6 +27,7 @@
 #include <morfuse/Common/membuf.h>
 #include <morfuse/Common/OutputInfo.h>
 #include "lineio.h"
+#include <algorithm>
 
 #include <sstream>
 #include <map>
@@ -200,14 +201,25 @@ int main()
                     else if (t[i][0] == 's') ev->AddString(unhex(t[i].substr(1)).c_str());
                     else ev->AddNil();
                 }
+                if (t[1][0] == '@') {
+                    // `@name`: the host starts the thread through the by-name overloads
+                    const StringResolvable byName(t[1].c_str() + 1);
+                    if (t[2] == "-") g_ctx->GetDirector().ExecuteThread(byName, *ev);
+                    else g_ctx->GetDirector().ExecuteThread(byName, *ev, StringResolvable(t[2].c_str()));
+                } else {
                 const ProgramScript* s = g_ctx->GetDirector().GetProgramScript(t[1].c_str());
                 if (t[2] == "-") g_ctx->GetDirector().ExecuteThread(s, *ev);
                 else g_ctx->GetDirector().ExecuteThread(s, *ev, t[2].c_str());
+                }
                 g_events.emplace_back(std::move(ev), t.size() - 3);     // only successful calls leave a record
                 extra = " ret=" + resultOf(g_events.size() - 1);
             } else if (op == "callv" && t.size() == 3) {
+                if (t[1][0] == '@') {
+                    g_ctx->GetDirector().ExecuteThread(StringResolvable(t[1].c_str() + 1), StringResolvable(t[2].c_str()));
+                } else {
                 const ProgramScript* s = g_ctx->GetDirector().GetProgramScript(t[1].c_str());
                 g_ctx->GetDirector().ExecuteThread(s, t[2].c_str());
+                }
             } else if (op == "thread-result") {
                 extra = " ret=" + allResults();
             } else if (op == "advance" && t.size() == 2) {
@@ -258,6 +270,16 @@ int main()
                     g_ctx->GetDirector().ExecuteThread(g_ctx->GetDirector().GetProgramScript("m"), ev1, "prog");
                 } catch (const std::exception& e) {
                     outcome = excKind(e);
+                }
+                if (std::find(t.begin(), t.end(), std::string("late")) != t.end() && outcome == "ok") {
+                    // the program yielded first (`wait 0.125`): the runaway part runs in a thread that the
+                    // scheduler resumes (ScriptContext::Execute -> ExecuteRunning -> Resume), not in a host call
+                    try {
+                        g_clock += 125;
+                        g_ctx->Execute();
+                    } catch (const std::exception& e) {
+                        outcome = excKind(e);
+                    }
                 }
                 g_clockStep = 0;
                 const bool cur = g_ctx->GetDirector().CurrentThread() != nullptr;
